@@ -155,13 +155,17 @@ theorem walk_hasFin (t : Trie) (p rest : List String) (id : Nat) (hp : p ∈ pat
 
 /-! ### well-formed (parser-shaped) name sets and the trie invariant -/
 
-/-- parser-shaped names: pairwise distinct, non-empty, no variant repeated within a name, and the first
-    (set) variant of a name occurs in no name at a later position -/
-structure WF (ns : List (List String × Nat)) : Prop where
+/-- the part of parser-shapedness the lookup *membership* needs: names pairwise distinct, non-empty, and the
+    first (set) variant of a name occurs in no name at a later position.  (Really parsed multi-vm names repeat
+    inner variants — e.g. the `nets.<swarm>.<net>` block once per vm — and still satisfy this.) -/
+structure WFb (ns : List (List String × Nat)) : Prop where
   names_nodup : (ns.map (·.1)).Nodup
   nonempty : ∀ n ∈ ns, n.1 ≠ []
-  var_nodup : ∀ n ∈ ns, n.1.Nodup
   head_not_later : ∀ n ∈ ns, ∀ m ∈ ns, ∀ h, n.1.head? = some h → h ∉ m.1.tail
+
+/-- parser-shaped names as the property quantifies them: `WFb` and no variant repeated within a name -/
+structure WF (ns : List (List String × Nat)) : Prop extends WFb ns where
+  var_nodup : ∀ n ∈ ns, n.1.Nodup
 
 /-- decidable form of `WF` (used for the non-vacuity examples and by monitors) -/
 def wfCheck (ns : List (List String × Nat)) : Bool :=
@@ -172,7 +176,7 @@ def wfCheck (ns : List (List String × Nat)) : Bool :=
 theorem wfCheck_sound (ns : List (List String × Nat)) (h : wfCheck ns = true) : WF ns := by
   simp only [wfCheck, Bool.and_eq_true, decide_eq_true_eq, List.all_eq_true] at h
   obtain ⟨⟨h1, h2⟩, h3⟩ := h
-  refine ⟨h1, fun n hn => (h2 n hn).1, fun n hn => (h2 n hn).2, ?_⟩
+  refine ⟨⟨h1, fun n hn => (h2 n hn).1, ?_⟩, fun n hn => (h2 n hn).2⟩
   intro n hn m hm hd hhd
   have := h3 n hn m hm
   rw [hhd] at this
@@ -188,13 +192,12 @@ theorem inv_nil : Inv [] [] := by
   · intro p; simp [paths]
   · intro p id; simp [HasFin]
 
-theorem wf_prefix {ns r : List (List String × Nat)} (h : WF (ns ++ r)) : WF ns := by
-  refine ⟨?_, ?_, ?_, ?_⟩
+theorem wf_prefix {ns r : List (List String × Nat)} (h : WFb (ns ++ r)) : WFb ns := by
+  refine ⟨?_, ?_, ?_⟩
   · have := h.names_nodup
     rw [List.map_append, List.nodup_append] at this
     exact this.1
   · intro m hm; exact h.nonempty m (List.mem_append_left _ hm)
-  · intro m hm; exact h.var_nodup m (List.mem_append_left _ hm)
   · intro a ha b hb; exact h.head_not_later a (List.mem_append_left _ ha) b (List.mem_append_left _ hb)
 
 /-- a list without duplicates, all of whose elements equal `a`, and which contains `a`, is `[a]` -/
@@ -288,7 +291,7 @@ theorem prefix_cons_iff (q : List String) (v0 : String) (rest : List String) :
     · exact ⟨by simp, s, by simp [hs]⟩
 
 theorem inv_insert {t : Trie} {ns : List (List String × Nat)} (hinv : Inv t ns) (name : List String) (id : Nat)
-    (hwf : WF (ns ++ [(name, id)])) : Inv (insert t name id) (ns ++ [(name, id)]) := by
+    (hwf : WFb (ns ++ [(name, id)])) : Inv (insert t name id) (ns ++ [(name, id)]) := by
   have hmem : (name, id) ∈ ns ++ [(name, id)] := by simp
   have hne := hwf.nonempty _ hmem
   match name, hne with
@@ -335,7 +338,7 @@ theorem inv_insert {t : Trie} {ns : List (List String × Nat)} (hinv : Inv t ns)
           exact hnew _ h
         · simp at h; left; exact ⟨h.1, h.2⟩
 
-theorem inv_foldl (done rest : List (List String × Nat)) (t : Trie) (hinv : Inv t done) (hwf : WF (done ++ rest)) :
+theorem inv_foldl (done rest : List (List String × Nat)) (t : Trie) (hinv : Inv t done) (hwf : WFb (done ++ rest)) :
     Inv (rest.foldl (fun t n => insert t n.1 n.2) t) (done ++ rest) := by
   induction rest generalizing done t with
   | nil => simpa using hinv
@@ -344,12 +347,12 @@ theorem inv_foldl (done rest : List (List String × Nat)) (t : Trie) (hinv : Inv
     have hassoc : done ++ n :: rs = (done ++ [n]) ++ rs := by simp
     rw [hassoc] at hwf ⊢
     apply ih
-    · have hw : WF (done ++ [n]) := wf_prefix hwf
+    · have hw : WFb (done ++ [n]) := wf_prefix hwf
       obtain ⟨a, b⟩ := n
       exact inv_insert hinv a b hw
     · exact hwf
 
-theorem inv_insertAll (ns : List (List String × Nat)) (hwf : WF ns) : Inv (insertAll ns) ns := by
+theorem inv_insertAll (ns : List (List String × Nat)) (hwf : WFb ns) : Inv (insertAll ns) ns := by
   have := inv_foldl [] ns [] inv_nil (by simpa using hwf)
   simpa [insertAll] using this
 
